@@ -84,6 +84,14 @@ def run(ck):
                     ph = [["dropper", 10000], ["creator", 4 * n], [wname[kind], 10000], ["creator", 10000]]
                 tasks.append({"scen": "reclaim", "params": {"kind": kind, "mode": "exitrace"}, "strat": ["phases", ph],
                               "gran": "instr", "facts": {"kind": kind, "exitrace": True}})
+    # the exit hook walking the registry while another thread registers a new executor's event
+    for kind in KINDS:
+        for kind2 in ("timeout", "retry"):
+            for n in range(1, 60, 3 if quick else 1):
+                for ph in ([["exiter", n, 1000], ["creator", 10000], ["exiter", 10000]],
+                           [["creator", 3 * n, 1000], ["exiter", 10000], ["creator", 10000]]):
+                    tasks.append({"scen": "reclaim", "params": {"kind": kind, "kind2": kind2, "mode": "exitadd"},
+                                  "strat": ["phases", ph], "gran": "line", "facts": {"kind": kind, "exitrace": True}})
     ck.run_and_validate(tasks, TRACE, nontrivial=lambda t, r: True)
     ck.assumptions += ["CPython reference counting and gc.collect() decide when an object is freed",
                        "a real interpreter exit is represented by calling the library's exit hook",
